@@ -62,11 +62,56 @@ def fixture_health(chk):
     return n, bad
 
 
+WITNESSES = {
+    'C13': ['ResponseEidIsPrivate', 'RequestEidIsPrivate', 'HalvesArePrivate'],
+    'C15': ['UuidIsPrivate', 'SetUuidNeedsMut'],
+    'C14': ['SelectorIsPrivate'],
+}
+
+
+def witnesses(chk, repo):
+    """Compile-fail witnesses (rustdoc compile_fail with error codes, nightly) against the tree under analysis."""
+    names = WITNESSES.get(chk.pid)
+    if not names:
+        return
+    import re
+    tmp = tempfile.mkdtemp(prefix='mctpsa-witness-')
+    try:
+        shutil.copytree(os.path.join(VERIF, 'witness', 'src'), os.path.join(tmp, 'src'))
+        toml = open(os.path.join(VERIF, 'witness', 'Cargo.toml.in')).read().replace('@REPO@', os.path.abspath(repo))
+        open(os.path.join(tmp, 'Cargo.toml'), 'w').write(toml)
+        if os.path.exists(os.path.join(repo, 'Cargo.lock')):
+            shutil.copy(os.path.join(repo, 'Cargo.lock'), os.path.join(tmp, 'Cargo.lock'))
+        env = dict(os.environ, CARGO_NET_OFFLINE='true', CARGO_TARGET_DIR=os.path.join(tmp, 'target'))
+        r = subprocess.run(['cargo', '+nightly', 'test', '--doc', '--offline'], cwd=tmp, env=env,
+                           stdout=subprocess.PIPE, stderr=subprocess.STDOUT, text=True)
+        out = r.stdout
+        res = {}
+        for m in re.finditer(r'^test src/lib.rs - (\w+) \(line \d+\) - (compile fail|compile) \.\.\. (\w+)', out, re.M):
+            res[(m.group(1), m.group(2))] = m.group(3)
+        for n in names:
+            fail_ok = res.get((n, 'compile fail')) == 'ok'
+            twin_ok = res.get((n, 'compile')) == 'ok'
+            chk.evals(2)
+            chk.ob(chk.pid + '.witness', 'witness %s' % n, fail_ok and twin_ok,
+                   chk.key('witness', chk.pid + '.witness', n, 'witness:%s:compile_fail=%s:twin=%s' % (n, res.get((n, 'compile fail')), res.get((n, 'compile')))),
+                   'compile-fail witness %s: the forbidden access %s, its twin %s - outside code can reach the state other than through the accessors (or the public API changed)' % (
+                       n, 'is rejected' if fail_ok else 'COMPILES', 'compiles' if twin_ok else 'does not compile'),
+                   show='witness %s: forbidden access rejected by rustc with the expected error code, twin differing only in that line compiles' % n)
+        chk.extra['witness_output_tail'] = out.strip().splitlines()[-3:]
+    finally:
+        shutil.rmtree(tmp, ignore_errors=True)
+
+
 def run(chk):
     from extract import REPO
     repo = os.environ.get('LIBMCTP_REPO', REPO)
     pid = chk.pid
     results = {'fixture_functions': 0, 'fixture_unanalysable': [], 'edits': []}
+    try:
+        witnesses(chk, repo)
+    except Exception as e:
+        print('note (thorough): witnesses could not be run: %r' % (e,))
     try:
         n, bad = fixture_health(chk)
         results['fixture_functions'] = n
